@@ -778,6 +778,15 @@ func (f *frame) builtin(st *State, bi *ssa.Builtin, com *ssa.CallCommon, instr s
 		r := vc.term(st, com.Args[0])
 		for _, a := range com.Args[1:] {
 			y := vc.term(st, a)
+			if isStringType(r.T) && vc.absStr {
+				// abstract ordered strings are integers in the encoding
+				c := "(< " + r.S + " " + y.S + ")"
+				if bi.Name() == "max" {
+					c = "(< " + y.S + " " + r.S + ")"
+				}
+				r = vc.define("mm", &Term{ite(c, r.S, y.S), r.Sort, r.T})
+				continue
+			}
 			if !isIntType(r.T) {
 				unsup("min/max on non-integers")
 			}
